@@ -61,6 +61,15 @@ func (p *PNotB) Parse(lex *lexer.PeekingLexer) error {
 	return nil
 }
 
+// RecNode is a DIRECTLY recursive production (reflect.StructOf cannot make one): its fields of its own type
+// are plain pointers, no union in between. Model: see gfam.RecursiveCaptures.
+type RecNode struct {
+	F0 string   `( @Ident "a"`
+	N1 *RecNode `@@ "b" ";"`
+	F2 string   `| @Ident ( "a"`
+	N3 *RecNode `@@ "b" )? )`
+}
+
 // PosMixin is embedded into nodes to test position injection through embedded structs.
 type PosMixin struct {
 	Pos    lexer.Position
